@@ -21,6 +21,16 @@ INI_WIDE = (b'[snoopy]\noutput = file:@D@/out.log\nmessage_format = "%{snoopy_th
             b'|%{uid}|%{pid}|%{ppid}|%{sid}|%{cwd}|%{hostname}|%{datetime}|%{timestamp}|%{env:HOME}|%{rpname}|%{tid}|%{snoopy_version}|%{snoopy_literal:x}|%{tty}|%{tty_uid}|%{tty_username}"\n')
 
 
+# configurations that drive a wrapped call through a rarely taken path (a data source that fails, a dropping filter chain, a lookup without result)
+LONGFMT = b"%A %B %d %Y %H:%M:%S %Z " * 4
+RARE_INIS = [
+    ("datetime-format-overflows-its-buffer", False, b'[snoopy]\noutput = file:@D@/out.log\nmessage_format = "%{datetime:' + LONGFMT + b'} %{cmdline}"\n'),
+    ("filter-chain-drops-the-call", False, b'[snoopy]\noutput = file:@D@/out.log\nfilter_chain = "exclude_uid:0"\n'),
+    ("ipaddr-without-utmp-record", True, b'[snoopy]\noutput = file:@D@/out.log\nmessage_format = "%{ipaddr} %{tty} %{cmdline}"\n'),
+    ("unknown-data-source-and-error-logging", False, b'[snoopy]\noutput = file:@D@/out.log\nerror_logging = yes\nmessage_format = "%{nosuch} %{cmdline}"\n'),
+]
+
+
 def query_handlers(run):
     """the handler kinds the Coq side recognises in the generated skeletons -> sidecar consts_conc.tsv for the model driver.
     Called BEFORE run.coq_props, so that the sidecar takes part in the reference mechanism (saved with VERIF_MKREF, replaced by the
@@ -360,6 +370,23 @@ def check(run):
                               {"failing_input": {"mode": "stress", "threads": 6, "calls": 3, "jitter_seed": run.seed * 1000 + rep + 1}, "mode": "stress-jitter", "threads": 6, "calls": 3,
                                "jitter": run.seed * 1000 + rep + 1, "ini": INI_MAIN.decode()})
                 break
+        # ---------------------------------------------------------------- rare paths: after a call went through one, a second thread must still get through its own calls
+        for (rname, rpty, rini) in RARE_INIS:
+            rr = run_mt(run, lib, "stress", 2, 2, "-", rini, "rare-" + rname[:12], timeout=60, env={"MT_ALARM": "8"}, pty_stdin=rpty)
+            stuck = rr["status"] == 3 or "stuck" in [f[0] for f in rr["trace"]["other"]]
+            if stuck or rr["status"] != 0 or len(rr["trace"]["ret"]) != 5:
+                run.violation("rare-path:%s:%s" % ("blocked" if stuck else "caller-died-%s" % rr["status"], rname), "timeout" if stuck else "crash",
+                              "two threads x two calls with a configuration that takes a rarely used path (%s): %s" % (rname,
+                              "a thread never returns from its exec call (8 s): the other thread went through the rare path and kept the repository mutex" if stuck
+                              else "status %s, %d of 5 calls returned: %s" % (rr["status"], len(rr["trace"]["ret"]), rr["stderr"][-200:])),
+                              {"failing_input": {"mode": "stress", "threads": 2, "calls": 2, "config": rname}, "mode": "stress-rare", "threads": 2, "calls": 2, "ini": rini.decode(), "pty": rpty})
+        # ---------------------------------------------------------------- threads with a small stack (64 KiB) and both length limits at their maximum
+        ini_big = b'[snoopy]\noutput = file:@D@/out.log\nlog_message_max_length = 1048575\ndatasource_message_max_length = 1048575\nmessage_format = "%{snoopy_threads}|%{tid_kernel}|%{cmdline}|%{filename}"\n'
+        rs = run_mt(run, lib, "stress", 4, 2, "-", ini_big, "smallstack", timeout=120, env={"MT_STACK_KB": "64"})
+        bads = ("sched:caller-died:%s" % rs["status"], "crash", "status %s: %s" % (rs["status"], rs["stderr"][-300:])) if rs["status"] != 0 else check_records(rs, 4, 2)
+        if bads:
+            run.violation("small-stack-" + bads[0], bads[1], "4 threads with 64 KiB stacks x 2 calls, log_message_max_length = datasource_message_max_length = 1048575: " + bads[2],
+                          {"failing_input": {"mode": "stress", "threads": 4, "calls": 2, "stack_kb": 64, "limits": 1048575}, "mode": "stress-smallstack", "threads": 4, "calls": 2, "ini": ini_big.decode()})
         # ---------------------------------------------------------------- non-thread-safe build: single-threaded use only
         nts = build_prod(run, ts=False)
         ini_nts = b'[snoopy]\noutput = file:@D@/out.log\nmessage_format = "-|%{tid_kernel}|%{cmdline}|%{filename}"\n'
